@@ -497,9 +497,39 @@ def impl(case):
                 out.append(r[0])
                 c = r[2]
             return out
+        if op == 9:
+            return keyring_impl(case)
     except Exception as e:  # noqa
         return exc_code(e)
     return Err(998, "bad op")
+
+
+def keyring_impl(case):
+    """dns.tsigkeyring text forms and signing through a keyring dict (oracle only)"""
+    import base64
+    _, nm, secret, alg, form, wire, now = case
+    name = N(nm)
+    b64 = base64.b64encode(bytes(secret)).decode()
+    if form == 0:
+        text = {name.to_text(): b64}
+    else:
+        text = {name.to_text(): (N(alg).to_text(), b64)}
+    kr = dns.tsigkeyring.from_text(text)
+    back = dns.tsigkeyring.to_text(kr)
+    kr2 = dns.tsigkeyring.from_text(back)
+    val = kr[name]
+    got_secret = val if isinstance(val, bytes) else val.secret
+    got_alg = None if isinstance(val, bytes) else labels_of(val.algorithm)
+    m = dns.message.from_wire(bytes(wire))
+    if form == 0:
+        m.use_tsig(kr, keyname=name, algorithm=N(alg))
+    else:
+        m.use_tsig(kr, keyname=name)
+    with clock(now):
+        out = m.to_wire(want_shuffle=False)
+    with clock(now):
+        m2 = dns.message.from_wire(out, keyring=kr)
+    return [int(kr2 == kr), int(list(kr.keys()) == [name]), bytes(got_secret), got_alg, out, int(bool(m2.had_tsig))]
 
 
 def sign_message_impl(wire, key, owner, rd, now, rmac, ctx, multi, how, raw_ctx=False):
@@ -1035,6 +1065,8 @@ def gen_read_case(rng, kind=None):
         kr = 0
     elif kind == "dict":
         k2 = gen_key(rng, 0)
+        while name_eq(k2[0], k[0]):  # a dict holds one entry per (case-insensitive) name
+            k2 = gen_key(rng, 0)
         kr = [2, [[k2[0], k2], [case_variant(rng, k[0]), k]]]
         keys = [k, k2]
     elif kind == "dict-bytes":
@@ -1169,27 +1201,38 @@ def gen_stream_cases(rng):
             yield "stream-drop", [7, ws3, [1, k], rmac, now, table(*stream_read_table(ws3, k, rmac))]
 
 
+def gen_keyring_case(rng):
+    k = gen_key(rng, 0)
+    if rng.random() < 0.3:
+        k[1] = k[1] or b"x"
+    return [9, k[0], k[1], k[2], rng.randrange(2), lib_wire(rng), gen_time(rng)]
+
+
 def cases(ctx):
     rng = ctx.rng
     yield "tables", [0]
-    for _ in range(ctx.n(250, 4000)):
+    for _ in range(ctx.n(40, 600)):
+        yield "keyring", gen_keyring_case(rng)
+    for _ in range(ctx.n(160, 4000)):
         yield "sign", gen_sign_case(rng)
-    for _ in range(ctx.n(500, 8000)):
+    for _ in range(ctx.n(380, 8000)):
         yield gen_validate_case(rng)
     for _ in range(ctx.n(100, 1500)):
         yield "rdata-to-wire", [3, gen_rdata_fields(rng)]
         yield "rdata-from-wire", gen_rdata_wire_case(rng)
-    for _ in range(ctx.n(120, 2000)):
+    for _ in range(ctx.n(90, 2000)):
         yield "sign-message", gen_signmsg_case(rng)
-    for _ in range(ctx.n(500, 8000)):
+    for _ in range(ctx.n(380, 8000)):
         kind, c = gen_read_case(rng)
         yield "read:" + kind, c
-    for _ in range(ctx.n(60, 1000)):
+    for _ in range(ctx.n(40, 1000)):
         yield from gen_stream_cases(rng)
 
 
 def in_model(kind, case):
     op = case[0]
+    if op == 9:
+        return False
     if op == 5:
         # the model writes the TSIG owner uncompressed; the key names of this generator never share a suffix with message names
         return True
@@ -1356,6 +1399,17 @@ def oracle(ctx, kind, case, out):
                     running += w
             else:
                 break
+    elif op == 9:
+        _, nm, secret, alg, form, wire, now = case
+        if isinstance(out, Err):
+            fail("keyring text round trip / signing through a keyring failed: " + out.text, sig="keyring")
+            return F
+        same, one, got_secret, got_alg, full, had = out
+        if not same or not one or got_secret != secret or (form == 1 and not name_eq(got_alg, alg)):
+            fail("dns.tsigkeyring from_text/to_text do not round-trip", sig="keyring-roundtrip")
+        v = rfc_verdict(full, nm, secret, alg, b"", now)
+        if v[0] != "accept" or not had:
+            fail("message signed through a keyring dict is not valid per RFC 8945: " + str(v[:2]), sig="keyring-sign")
     elif op == 8:
         _, envs, k, rmac, _ = case
         if isinstance(out, Err):
@@ -1450,7 +1504,7 @@ def realistic_message(rng):
 def flip_sources(ctx):
     """signed messages to tamper with: (wire, key, rmac, now, running-ctx or None)"""
     rng = ctx.rng
-    n = ctx.n(36, 700)
+    n = ctx.n(30, 700)
     for i in range(n):
         k = gen_key(rng, 0)
         r = rng.random()
